@@ -386,6 +386,16 @@ def run_c02(rep, tier, seed, nproc=8):
                 seen.add(sig)
                 rp = write_replay("C02", "solve_%s_%s" % (f["route"], f["kind"]), dict(engine="solve", property="C02", **f))
                 rep.violation(sig, "%s | backend %s keys %s | program %s" % (f["detail"], f["backend"], f["keys"], json.dumps(f["program"])[:300]), rp)
+    # large programs with exactly one model (z3 route): every key must come out decided, with the model's value
+    with Env():
+        for f in programs.large_structured_programs(tier, use_solve=True):
+            rep.evaluations += 1
+            if f is not None:
+                sig = "solve:fallback:%s:large" % f["kind"]
+                if sig not in seen:
+                    seen.add(sig)
+                    rp = write_replay("C02", "solve_large_%s" % f["kind"], dict(engine="solve", property="C02", **f))
+                    rep.violation(sig, f["detail"], rp)
     rep.distinct.update(("c02", i) for i in range(rep.evaluations))
 
 
